@@ -43,6 +43,15 @@ class FileImage(object):
     def image(self):
         return b''.join(self.get(r) for r in range(1, self.highest + 1))
 
+    def reshaped(self, reclen):
+        """The same bytes seen with another record length (only used when it divides the file length)."""
+        data = self.image()
+        assert len(data) % reclen == 0
+        new = FileImage(reclen)
+        for i in range(len(data) // reclen):
+            new.put(i + 1, data[i * reclen:(i + 1) * reclen])
+        return new
+
 
 class Channel(object):
     """One open file number: buffer, FIELD views, position."""
